@@ -215,6 +215,26 @@ ADDENDA5 = {
     "C20": ("; escape analysis for pointers into the reallocated opcode-set table; literal-name rule for lookups restricted to the built-in set", " Also decides that no pointer into the opcode-set table is kept across a possible registration, and that lookups restricted to the built-in set concern built-in names only."),
 }
 
+# Additions after the sixth seeding round
+ADDENDA6 = {
+    "C02": ("; finite evaluation of the parameter-temporary reuse decision (memo-key completeness)", " Also decides that the compiler shares a loaded parameter between instructions only under facts that tell uses of different operand size, replication or parameter apart."),
+    "C03": ("; type-level rule for the staging of parameters in the emulator; symbolic evaluation of the emitted region-split code (linear terms, structured shift/mask symbols, emitted branches as paths)", " Also decides that 4-byte parameters reach the emulator's 64-bit staging sign-extended, and that on every path of the emitted split code the three region counters add up to ex->n."),
+    "C04": ("; memo-key completeness of the parameter-temporary reuse (shared with C02)", " Also decides the parameter-reuse condition the generated C depends on."),
+    "C05": ("; precondition rule for constant-index reads of counted instruction arrays (one level of callers, predicate helpers expanded); non-NULL rule for entries of the code-region table", " Also decides that insns[K] is read only where n_insns > K is known, and that no possibly-NULL region is entered into the region table."),
+    "C06": ("; must-pass-through rule for the executor a generated wrapper fills in (shared with C07)", " Also decides that a wrapper hands emulation an executor carrying n and, for 2-D programs, m."),
+    "C07": ("; store-width rule for generated stores into the accumulator slots; zeroing rule of the emulator's accumulators (shared with C02)", " Also decides that every generated store into ex->accumulators[k] writes the whole int slot, and that emulation zeroes the accumulators also for code-only executors."),
+    "C09": ("; non-NULL rule for entries of the code-region table", " Also decides that only non-NULL regions are entered into the region table."),
+    "C10": ("; symbolic evaluation of the emitted region-split code (shared with C03)", " Also decides that the generated loops process exactly ex->n elements (region counters tile n)."),
+    "C12": ("; must-call pairing of listing line and byte emission per instruction; role agreement of VEX.R/X/B with the ModRM operands for every producible instruction shape (finite CFG evaluation of both emitters)", " Also decides that no instruction is printed without being encoded, and that the three-byte VEX prefix extends exactly the registers the ModRM byte carries in reg and r/m."),
+    "C14": ("; definite assignment through out-parameters (callee summaries with return-value correlation); snprintf-length rule (shared with C05)", " Also decides that values obtained through out-parameters are defined when read, and that listing writers bound the length (v)snprintf reports."),
+    "C15": ("; whole-line rule for copies out of the text cursor", " Also decides that the parser's private copy of a line takes the whole line."),
+    "C16": ("; out-parameter allocators (vasprintf) in the local-allocation rule", " The local-allocation rule also covers blocks allocated through vasprintf/asprintf."),
+    "C17": ("; who-may-read rule for attach-time code snapshots (shared with C06/C16)", " Also decides that running after a reset and recompile uses the program's current code."),
+    "C18": ("; sibling agreement of single-instruction float rules between the SSE and AVX back ends", " Also decides that SSE and AVX implement each single-instruction float opcode with the same opcode-table row."),
+    "C19": ("; flag-word agreement between tested bits and the getter's word", " Also decides that is_executable tests its feature bits in the word in which the cpuid handlers set them."),
+    "C20": ("; decision-block analysis of the back ends' instruction loops", " Also decides that only the compiler's per-instruction marks can make a back end pass over an instruction without calling its rule."),
+}
+
 NOT_YET = "check under construction in this round; not claimed until its rules are exact on the current tree"
 NOT_APPLICABLE = {
     "C01": "value equivalence of JIT code and emulation over all inputs/register allocations: no structural necessary condition beyond what C03/C10/C11 decide; needs execution or translation validation (other technique families)",
@@ -243,6 +263,9 @@ def main():
                 tech, text = tech + a[0], text + a[1]
             if pid in ADDENDA5:
                 a = ADDENDA5[pid]
+                tech, text = tech + a[0], text + a[1]
+            if pid in ADDENDA6:
+                a = ADDENDA6[pid]
                 tech, text = tech + a[0], text + a[1]
             checks.append({
                 "property_id": pid,
